@@ -36,6 +36,7 @@ func (m *Mutex) Lock() {
 	vrt.Point(&vrt.Op{Kind: "lock", Obj: m,
 		Enabled: func() bool { return !m.held },
 		Apply:   func() { m.held = true; s.Held++ }})
+	vrt.Acquire(m)
 }
 
 func (m *Mutex) TryLock() bool {
@@ -51,6 +52,9 @@ func (m *Mutex) TryLock() bool {
 			ok = true
 		}
 	}})
+	if ok {
+		vrt.Acquire(m)
+	}
 	return ok
 }
 
@@ -60,6 +64,7 @@ func (m *Mutex) Unlock() {
 		m.mu.Unlock()
 		return
 	}
+	vrt.Release(m)
 	s.Mu.Lock()
 	if !m.held {
 		s.Mu.Unlock()
@@ -92,6 +97,7 @@ func (m *RWMutex) Lock() {
 	vrt.Point(&vrt.Op{Kind: "lock", Obj: m,
 		Enabled: func() bool { return !m.writer && m.readers == 0 },
 		Apply:   func() { m.writer = true; m.pending--; s.Held++ }})
+	vrt.Acquire(m)
 }
 
 func (m *RWMutex) Unlock() {
@@ -100,6 +106,7 @@ func (m *RWMutex) Unlock() {
 		m.mu.Unlock()
 		return
 	}
+	vrt.Release(m)
 	s.Mu.Lock()
 	if !m.writer {
 		s.Mu.Unlock()
@@ -119,6 +126,7 @@ func (m *RWMutex) RLock() {
 	vrt.Point(&vrt.Op{Kind: "rlock", Obj: m,
 		Enabled: func() bool { return !m.writer && m.pending == 0 },
 		Apply:   func() { m.readers++; s.Held++ }})
+	vrt.Acquire(m)
 }
 
 func (m *RWMutex) RUnlock() {
@@ -127,6 +135,7 @@ func (m *RWMutex) RUnlock() {
 		m.mu.RUnlock()
 		return
 	}
+	vrt.Release(m)
 	s.Mu.Lock()
 	if m.readers <= 0 {
 		s.Mu.Unlock()
@@ -233,6 +242,7 @@ func (c *Cond) Wait() {
 	s.Mu.Unlock()
 	c.L.Unlock()
 	vrt.Point(&vrt.Op{Kind: "condwait", Obj: st, Enabled: func() bool { return tk.signalled }})
+	vrt.Acquire(st)
 	c.L.Lock()
 }
 
@@ -243,6 +253,7 @@ func (c *Cond) Signal() {
 		return
 	}
 	st := c.state()
+	vrt.Release(st)
 	s.Mu.Lock()
 	if len(st.waiters) > 0 {
 		st.waiters[0].signalled = true
@@ -258,6 +269,7 @@ func (c *Cond) Broadcast() {
 		return
 	}
 	st := c.state()
+	vrt.Release(st)
 	s.Mu.Lock()
 	for _, w := range st.waiters {
 		w.signalled = true
@@ -279,6 +291,9 @@ func (w *WaitGroup) Add(delta int) {
 		w.wg.Add(delta)
 		return
 	}
+	if delta < 0 {
+		vrt.Release(w)
+	}
 	s.Mu.Lock()
 	w.n += delta
 	neg := w.n < 0
@@ -297,6 +312,7 @@ func (w *WaitGroup) Wait() {
 		return
 	}
 	vrt.Point(&vrt.Op{Kind: "wgwait", Obj: w, Enabled: func() bool { return w.n == 0 }})
+	vrt.Acquire(w)
 }
 
 func (w *WaitGroup) Go(f func()) {
